@@ -403,6 +403,10 @@ func childMain(args []string) {
 		if _, err := ptt.WriteFavorites(uid, hx.UnHex(args[2])); err != nil {
 			os.Exit(4)
 		}
+	case "load":
+		// experiment: Load whatever is in .fav (used to probe very deep nesting by hand)
+		f, err := fav.Load(uid)
+		fmt.Println("load:", err, f != nil)
 	default:
 		os.Exit(3)
 	}
